@@ -1828,7 +1828,20 @@ def _prim_check(f, p, side, prog=None):
                             bodies.append(t.body)
         mem = [n for b in bodies for n in walk(b) if n.get('kind') == 'CallExpr'
                and (strip(children(n)[0]).get('referencedDecl') or {}).get('name') == 'memcpy']
-        if len(mem) != 1 or _int(children(mem[0])[3]) != 8:
+        def _size_of(n):
+            v = _int(n)
+            if v is None:
+                x = _ex(n)
+                if x.get('kind') == 'DeclRefExpr':
+                    d = f.tu.ids.get((x.get('referencedDecl') or {}).get('id'))
+                    if d is not None and d.get('kind') == 'VarDecl' and (d.get('constexpr') or 'const' in (d.get('type') or '')):
+                        from .program import literal_value as _lv
+                        v = _lv(d)
+                elif x.get('kind') == 'UnaryExprOrTypeTraitExpr' and x.get('name') == 'sizeof':
+                    t = (x.get('argType') or {}).get('qualType') or ''
+                    v = 8 if t.replace('const ', '').strip() in ('double', 'int64_t', 'std::int64_t', 'long', 'long long') else None
+            return v
+        if len(mem) != 1 or _size_of(children(mem[0])[3]) != 8:
             return (False, 'expected one memcpy of 8 bytes between the double and the int64')
         types = sorted(re.sub(r'\s*\*$', '', (strip(a, explicit=True).get('type') or '').replace('const ', '')).strip()
                        for a in children(mem[0])[1:3])
